@@ -38,6 +38,64 @@ def char_switches(f):
     return out
 
 
+def form2_seen(ctx):
+    return bool(getattr(ctx, "_c16_flags_form2", False))
+
+
+def _flags_as_prefix(ctx, pf):
+    """The flags read in one piece: `flags` = the longest prefix of the rest of the format made of blanks and dashes (cut
+    with `find(|c| c != ' ' && c != '-')` + the parser's own advance), justification Left iff it contains a dash. The same
+    table as the character loop: Right initially, Left on '-', blanks skipped, anything else ends the flags."""
+    prog = ctx.prog
+    aggs = []
+    for b in pf.reachable():
+        for s in pf.blocks[b].stmts:
+            if s.rv is not None and s.rv.k == "agg" and s.rv.j.get("adt") == P + "Justify":
+                aggs.append((b, s.rv.j.get("variant")))
+    if sorted(v for _, v in aggs) != ["Left", "Right"]:
+        return False
+    subj = None
+    for b, v in aggs:
+        hit = None
+        for gd in prim.dominating_guards(pf, b):
+            pr = prim.resolve_promoted(pf, gd["pred"]).strip()
+            if pr.k == "call" and pr.a["name"] == "contains" and gd["bool"] is not None and len(pr.kids) == 2:
+                pat = pr.kids[1].strip()
+                if pat.k == "const" and (pat.a.get("ch") == "-" or pat.a.get("v") in ("-", 45)):
+                    hit = (gd["bool"], pr.kids[0])
+        if hit is None or hit[0] != (v == "Left"):
+            return False
+        subj = hit[1]
+    # the searched text: what the parser's advance hands back for the offset `find(not a flag character)` of its own text
+    so = prim.renorm(prim.expand_single_def_vars(pf, subj, depth=6))
+    adv = [c for c in so.call_nodes() if c.a["callee"] == FSP + "advance_by"]
+    fnd = [c for c in so.call_nodes() if c.a["name"] == "find" and "str" in c.a["callee"]]
+    if len(adv) != 1 or len(fnd) != 1 or len(fnd[0].kids) != 2:
+        return False
+    if not any(x.k == "field" and str(x.a) == "string" for x in fnd[0].kids[0].walk()):
+        return False
+    clo = [x for x in fnd[0].kids[1].walk() if x.k == "agg" and str(x.a).startswith("closure:")]
+    cf = prog.fns.get(str(clo[0].a).split(":", 1)[1]) if len(clo) == 1 else None
+    if cf is None:
+        return False
+    ctx.analysed_fns.add(cf.path)
+    cmps = []
+    for b in cf.reachable():
+        for s in cf.blocks[b].stmts:
+            if s.rv is not None and s.rv.k == "bin" and s.rv.j["op"] in ("Eq", "Ne", "Lt", "Le", "Gt", "Ge"):
+                cs = [o_.const.get("ch") for o_ in s.rv.ops if o_.kind == "const"]
+                cmps.append((s.rv.j["op"], cs[0] if cs else None))
+    if sorted(cmps, key=str) != sorted([("Ne", " "), ("Ne", "-")], key=str) or any(t.k == "call" for _, t in cf.calls()):
+        return False
+    # `a && b`: true only when both hold (the result is false on the path where the first comparison fails)
+    ro = prim.origin_of_local(cf, 0)
+    alts = [a_.strip() for a_ in prim.flatten_phi(ro)]
+    if not (len(alts) == 2 and any(a_.k == "const" and a_.a.get("v") is False for a_ in alts) and any(a_.k == "bin" and a_.a == "Ne" for a_ in alts)):
+        return False
+    ctx._c16_flags_form2 = True
+    return True
+
+
 def run(ctx):
     prog = ctx.prog
     # ---- R1 escapes -----------------------------------------------------------------------------------------
@@ -187,7 +245,10 @@ def run(ctx):
                         if pf.blocks[gd["bb"]].term.j.get("discr_ty") == "char" and all(isinstance(x, int) for x in gd["labels"]):
                             ch = "".join(chr(x) for x in gd["labels"])
                     vals.append((ch, str(s.a).split("::")[-1]))
-            ctx.ob("R3", "flag-table", sorted(vals, key=str) == sorted([(None, "Right"), ("-", "Left")], key=str), "justification writers %s; oracle: Right initially, Left on the '-' flag, nothing else" % vals, fn=pf, how="local writers + char dispatch")
+            form2 = False
+            if sorted(vals, key=str) != sorted([(None, "Right"), ("-", "Left")], key=str):
+                form2 = _flags_as_prefix(ctx, pf)
+            ctx.ob("R3", "flag-table", form2 or sorted(vals, key=str) == sorted([(None, "Right"), ("-", "Left")], key=str), "justification writers %s; oracle: Right initially, Left on the '-' flag, nothing else" % vals, fn=pf, how="local writers + char dispatch")
         else:
             ctx.missing("R3", "justify local in parse_format_specifier")
         for b in pf.reachable():
@@ -197,6 +258,12 @@ def run(ctx):
                     wo = prim.origin_of_operand(pf, s.rv.ops[names.index("width")]).strip()
                     jo = prim.origin_of_operand(pf, s.rv.ops[names.index("justify")]).strip()
                     wcalls = [c.a["callee"] for c in wo.call_nodes()]
+                    if form2_seen(ctx) and FSP + "parse_format_width" in wcalls and set(c.a["name"] for c in wo.call_nodes()) <= {"parse_format_width", "branch"}:
+                        # the flag is the value the prefix form computes (judged by flag-table): Left or Right, nothing else
+                        alts_ = [a_.strip() for a_ in prim.flatten_phi(prim.renorm(prim.expand_single_def_vars(pf, jo, depth=5)))]
+                        if alts_ and all(a_.k == "agg" and str(a_.a).startswith(P + "Justify::") for a_ in alts_):
+                            ctx.ob("R3", "directive-carries-width-and-flag", True, "Directive{width: %s, justify: %s}" % (wo.fmt(), jo.fmt()), fn=pf, where=prim.site(pf, b, s), how="provenance slice")
+                            continue
                     ok = FSP + "parse_format_width" in wcalls and set(c.a["name"] for c in wo.call_nodes()) <= {"parse_format_width", "branch"} and \
                         ((jo.k == "var" and (jo.a.get("name") or "").split("::")[-1] == "justify") or
                          (not jo.consts() or True) and any(x.k == "var" and (x.a.get("name") or "").split("::")[-1] == "justify" for x in prim.renorm(prim.expand_single_def_vars(pf, jo, depth=5)).walk()) and not any(cn_.a["name"] not in ("branch", "from_residual") for cn_ in jo.call_nodes()))
